@@ -580,3 +580,100 @@ func TestVF_C06_CommitmentAccess(t *testing.T) {
 		}
 	})
 }
+
+// TestVF_C06_LegacyKeyshare: the honest run with a keyshare contribution through the OLDER keyshare
+// exchange (the server answers with (P, c, s_response); the holder removes P from its commitment proof
+// and merges the server's proof): it must end with a credential over (user secret, attributes), and the
+// commitment that is sent and signed must be the one the commitment proof is about.
+func TestVF_C06_LegacyKeyshare(t *testing.T) {
+	rec := vfh.New(t, "C06")
+	defer rec.Flush()
+	rec.Check(func(rt *rapid.T) {
+		drawLibSeed(t, rt)
+		kp := getKey("k1024", rapid.IntRange(0, 2).Draw(rt, "key"))
+		pk := kp.Pk
+		n := rapid.IntRange(1, 5).Draw(rt, "n")
+		var attrs []*big.Int
+		var blind []int
+		for i := 0; i < n; i++ {
+			v, _ := genAttr(rt, fmt.Sprintf("a%d", i), pk.Params.Lm)
+			attrs = append(attrs, v)
+			if rapid.IntRange(0, 3).Draw(rt, fmt.Sprintf("blind%d", i)) == 0 {
+				blind = append(blind, i)
+			}
+		}
+		in := append([]*big.Int{}, attrs...)
+		for _, j := range blind {
+			in[j] = nil
+		}
+		ctx := new(big.Int).SetBytes(rapid.SliceOfN(rapid.Byte(), 1, 32).Draw(rt, "ctx"))
+		nonce1 := new(big.Int).SetBytes(rapid.SliceOfN(rapid.Byte(), 1, 10).Draw(rt, "n1"))
+		nonce2 := new(big.Int).SetBytes(rapid.SliceOfN(rapid.Byte(), 1, 10).Draw(rt, "n2"))
+		secret, kss := genSecret(rt, "secret"), genSecret(rt, "kss")
+		det := map[string]any{"key": kp.Name, "attributes": n, "blind": blind}
+		rec.Case(fmt.Sprintf("legacy-keyshare/blind=%d", len(blind)), true, fmt.Sprintf("lk|%s|%v|%v|%s", kp.Name, attrs, blind, ctx))
+		var cred *Credential
+		var msgU, proofUU *big.Int
+		var stage string
+		var err error
+		ps := vfh.Guard(func() {
+			stage = "builder"
+			var cb *CredentialBuilder
+			if cb, err = NewCredentialBuilder(pk, ctx, secret, nonce2, keyshareP(kss, pk), blind); err != nil {
+				return
+			}
+			stage = "keyshare-commitments"
+			rnd, comms, e := NewKeyshareCommitments(kss, []*gabikeys.PublicKey{pk})
+			if err = e; err != nil {
+				return
+			}
+			cb.SetProofPCommitment(comms[0])
+			bl := ProofBuilderList{cb}
+			stage = "challenge"
+			challenge, e := bl.Challenge(ctx, nonce1, false)
+			if err = e; err != nil {
+				return
+			}
+			stage = "proofs"
+			proofs, e := bl.BuildDistributedProofList(challenge, nil)
+			if err = e; err != nil {
+				return
+			}
+			stage = "merge"
+			pp := KeyshareResponseLegacy(kss, rnd, challenge, pk)
+			pu := proofs[0].(*ProofU)
+			pu.RemoveKeyshareP(cb)
+			pu.MergeProofP(pp, pk)
+			msg := cb.CreateIssueCommitmentMessage(proofs)
+			msgU, proofUU = msg.U, pu.U
+			stage = "issuer-verifies"
+			if !msg.Proofs.Verify([]*gabikeys.PublicKey{pk}, ctx, nonce1, false, nil) {
+				err = fmt.Errorf("honest commitment proof does not verify")
+				return
+			}
+			stage = "issue"
+			ism, e := NewIssuer(kp.Sk, pk, ctx).IssueSignature(msg.U, append([]*big.Int{}, in...), nil, msg.Nonce2, blind)
+			if err = e; err != nil {
+				return
+			}
+			stage = "construct"
+			cred, err = cb.ConstructCredential(ism, append([]*big.Int{}, in...))
+		})
+		if ps != "" {
+			rec.Fail(rt, ps+":legacy-keyshare:"+stage, det)
+			return
+		}
+		if err != nil {
+			det["err"], det["stage"] = err.Error(), stage
+			rec.Fail(rt, "honest-legacy-keyshare-issuance-fails:"+stage, det)
+			return
+		}
+		if msgU.Cmp(proofUU) != 0 {
+			rec.Fail(rt, "commitment-sent-differs-from-the-one-proven", det)
+			return
+		}
+		if cred == nil || !cred.Signature.Verify(pk, cred.Attributes) || cred.Attributes[0].Cmp(secret) != 0 {
+			rec.Fail(rt, "honest-credential-signature-invalid:legacy-keyshare", det)
+		}
+	})
+}
